@@ -32,6 +32,10 @@ WBLEncrT(X, T) == FoldLeft(LAMBDA r, i : WblEncRound(r, T, i), X, Upto(2 * WblN(
 WBLDecrT(X, T) == LET m == 2 * WblN(X) IN
                   FoldLeft(LAMBDA r, i : WblDecRound(r, T, m + 1 - i), X, Upto(m))
 WBLEncr(X, key) == WBLEncrT(X, KeyExpand(key))
+\* continued encryption (beltWBLStepR, used by STB 34.101.45 for one-time keys): the k-th application (k = 0, 1, ...)
+\* runs the rounds with counter values k 2n + 1 .. (k + 1) 2n
+WBLEncrFrom(X, key, k) == LET T == KeyExpand(key)  m == 2 * WblN(X) IN
+                          FoldLeft(LAMBDA r, i : WblEncRound(r, T, k * m + i), X, Upto(m))
 WBLDecr(X, key) == WBLDecrT(X, KeyExpand(key))
 
 -----------------------------------------------------------------------------
